@@ -30,7 +30,7 @@ def digest (st : State) : String :=
   let ftpc := match s.ftpc with | some f => showSvc f ++ (if s.ftpcFix.isSome then ":FIXING" else ":GOOD") | none => "-"
   let svc := if s.installed then s!"{showSvc s.op},{showH s.health}" else "absent,absent"
   let srv := s!"srv:{showP s.node.st},{svc},{showF s.file},{showF s.downloads},{conns},ftpc={ftpc},port={showBool s.listening},dl={showBool s.dlFolder}"
-  let bk := s!"bk:{showP st.bk.node.st},{showSvc st.bk.ftps},{showF st.bk.stored}"
+  let bk := s!"bk:{showP st.bk.node.st},{showSvc st.bk.ftps},{showF st.bk.stored},orph={st.bk.orphans.length}"
   let cl := st.clients.map (fun c =>
     let dm := if c.dmInstalled then s!",dm{c.dmStage}" else ""
     if c.installed then s!"c:{showP c.node.st},{showApp c.app},{showNats c.conns},{showOpt toString c.native}{dm}"
